@@ -48,6 +48,7 @@ struct Config {
   std::string name;
   int level = 0, mode = 0;
   double e1 = -1, e2 = -1; // window (MeV) if e1 >= 0
+  std::string pre;         // key of a predecessor configuration initialised first on the same objects (dx)
   bool dbd() const { return cat == "dbd"; }
   bool window() const { return e1 >= 0; }
   std::string key() const
@@ -57,6 +58,7 @@ struct Config {
       if (window()) snprintf(b, sizeof b, "dbd:%s:l%d:m%d:w%g-%g", name.c_str(), level, mode, e1, e2);
       else snprintf(b, sizeof b, "dbd:%s:l%d:m%d", name.c_str(), level, mode);
     } else snprintf(b, sizeof b, "bkg:%s", name.c_str());
+    if (!pre.empty()) return std::string(b) + ":after:" + pre;
     return b;
   }
 };
@@ -263,10 +265,9 @@ struct PortSide {
           pars.modebb = c.mode;
           pars.istartbb = 0;
           pars.chi_GTw = NME[0]; pars.chi_Fw = NME[1]; pars.chip_GT = NME[2]; pars.chip_F = NME[3]; pars.chip_T = NME[4]; pars.chip_P = NME[5]; pars.chip_R = NME[6];
-          if (c.window()) {
-            pars.ebb1 = c.e1;
-            pars.ebb2 = c.e2;
-          }
+          // the caller provides the energy-sum range at every initialisation (as the Fortran caller fills common/enrange/)
+          pars.ebb1 = c.window() ? c.e1 : 0.0;
+          pars.ebb2 = c.window() ? c.e2 : 4.3;
           bxdecay0::genbbsub(r, ev, 1, c.name, c.level, c.mode, -1, err, pars);
         } else {
           bxdecay0::genbbsub(r, ev, 2, c.name, -1, -1, -1, err, pars);
